@@ -246,6 +246,8 @@ Definition missing_seqnums (p : proxy) (first last : Z) : out (list Z) :=
 (* RtpsReaderProxy (the local Writer's view of a remote reader) *)
 Record rproxy := { rp_acked : Z; rp_unsent : list Z; rp_frags : list (Z * list bool) }.
 Definition rproxy0 : rproxy := {| rp_acked := 0; rp_unsent := []; rp_frags := [] |}.
+(* after the driver has written samples 1..3: every sample is "unsent" for the matched reader *)
+Definition rproxy_init : rproxy := {| rp_acked := 0; rp_unsent := [1; 2; 3]; rp_frags := [] |}.
 
 (* ---------------------------------------------------------------------------------------- *)
 (* the participant: one reliable Reader (matched writer proxies by source, fragment assemblers
@@ -552,17 +554,32 @@ Definition size (s : state) : Z :=
    well-behaved writer 2 sends DATA 1 and a HEARTBEAT 1..1. *)
 Definition init : state :=
   {| s_px := [(1, proxy0); (2, proxy0)]; s_fa := []; s_deliv := [];
-     s_rps := [(1, rproxy0)]; s_hist := [(1, 1); (2, 1); (3, 3)]; s_last := 3; s_now := 0 |}.
+     s_rps := [(1, rproxy_init)]; s_hist := [(1, 1); (2, 1); (3, 3)]; s_last := 3; s_now := 0 |}.
 
-Record case := { c_dgs : list dgram }.
+(* run-length encoded list of datagrams: (n, d) = the datagram d, n times in a row *)
+Record case := { c_rl : list (Z * dgram) }.
+Definition c_dgs (c : case) : list dgram :=
+  flat_map (fun p => repeat (snd p) (Z.to_nat (fst p))) (c_rl c).
 
 Inductive outcome := OOk | OCrash | OHang.
 
+(* bitmaps are printed run-length encoded: maximal runs (length, value) *)
+Definition rlbits := list (Z * bool).
+Fixpoint rle (l : list bool) : rlbits :=
+  match l with
+  | [] => []
+  | b :: l' =>
+      match rle l' with
+      | (n, b') :: r => if Bool.eqb b b' then (n + 1, b) :: r else (1, b) :: (n, b') :: r
+      | [] => [(1, b)]
+      end
+  end.
+
 Record digest := {
   g_base : Z; g_changes : list Z; g_hb : Z;               (* proxy of writer 1 *)
-  g_bufs : list (Z * list (Z * (Z * list bool)));            (* per source: (sn, size, bitmap) *)
+  g_bufs : list (Z * list (Z * (Z * rlbits)));             (* per source: (sn, size, bitmap) *)
   g_deliv : list (Z * Z);                                  (* handed to the cache, in order *)
-  g_acked : Z; g_unsent : list Z; g_frags : list (Z * list bool) }.
+  g_acked : Z; g_unsent : list Z; g_frags : list (Z * rlbits) }.
 
 Record obs := {
   o_outcomes : list outcome;       (* per datagram handled *)
@@ -594,10 +611,10 @@ Definition digest_of (s : state) : digest :=
   let rp := match F.alookup 1 (s_rps s) with Some r => r | None => rproxy0 end in
   {| g_base := ack_base p; g_changes := zsort (changes p); g_hb := hb_count p;
      g_bufs := ksort (map (fun kv => (fst kv,
-                  ksort (map (fun sb => (fst sb, (F.len (F.ab_bytes (snd sb)), F.ab_bitmap (snd sb))))
+                  ksort (map (fun sb => (fst sb, (F.len (F.ab_bytes (snd sb)), rle (F.ab_bitmap (snd sb)))))
                              (F.fa_bufs (snd kv))))) (s_fa s));
      g_deliv := rev (s_deliv s);
-     g_acked := rp_acked rp; g_unsent := zsort (rp_unsent rp); g_frags := ksort (rp_frags rp) |}.
+     g_acked := rp_acked rp; g_unsent := zsort (rp_unsent rp); g_frags := ksort (map (fun kv => (fst kv, rle (snd kv))) (rp_frags rp)) |}.
 
 Record racc := { a_outs : list outcome; a_replies : list reply; a_cost : Z; a_alloc : Z }.
 
@@ -659,10 +676,10 @@ Definition run (c : case) : obs := if too_big c then obs_big c else run_v fixed 
 Definition outcome_eqb (a b : outcome) : bool :=
   match a, b with OOk, OOk | OCrash, OCrash | OHang, OHang => true | _, _ => false end.
 Definition zl_eqb := list_eqb Z.eqb.
-Definition bl_eqb := list_eqb Bool.eqb.
+Definition bl_eqb := list_eqb (pair_eqb Z.eqb Bool.eqb).
 Definition reply_eqb (a b : Z * Z * list Z) : bool :=
   (fst (fst a) =? fst (fst b)) && (snd (fst a) =? snd (fst b)) && zl_eqb (snd a) (snd b).
-Definition buf_eqb (a b : Z * (Z * list bool)) : bool :=
+Definition buf_eqb (a b : Z * (Z * rlbits)) : bool :=
   (fst a =? fst b) && (fst (snd a) =? fst (snd b)) && bl_eqb (snd (snd a)) (snd (snd b)).
 Definition digest_eqb (a b : digest) : bool :=
   (g_base a =? g_base b) && zl_eqb (g_changes a) (g_changes b) && (g_hb a =? g_hb b)
@@ -696,8 +713,8 @@ Definition case_obs_eqb (c : case) := obs_eqb_for c.
        are linear in the bytes received;
    (c) afterwards the well-behaved writer's sample is delivered and acknowledged. *)
 Definition total_bytes (c : case) : Z := fold_right Z.add 0 (map dg_bytes (c_dgs c)).
-Definition alloc_budget (c : case) : Z := 262144 + 1024 * total_bytes c.
-Definition retained_budget (c : case) : Z := 262144 + 1024 * total_bytes c.
+Definition alloc_budget (c : case) : Z := 262144 + 128 * total_bytes c.
+Definition retained_budget (c : case) : Z := 262144 + 128 * total_bytes c.
 Definition cost_budget (c : case) : Z := 4096 + 64 * total_bytes c.
 Definition ms_budget : Z := 3000.
 
@@ -739,7 +756,7 @@ Definition wf_sub (m : subm) : bool :=
   | InfoDst w | InfoSrc w => (0 <=? w) && (w <=? 255)
   | Raw id fl bl lf _ => in_u16 bl && (0 <=? id) && (id <=? 255) && (0 <=? fl) && (fl <=? 255)
                          && match lf with Some l => in_u16 l | None => true end
-  | Blob n _ => in_u16 n
+  | Blob n p => in_u16 n && (negb p || (20 <=? n))
   end.
 Definition wf_dgram (d : dgram) : bool :=
   (0 <=? d_src d) && (d_src d <=? 255) && forallb wf_sub (d_subs d).
